@@ -411,18 +411,22 @@ def r3b(db, rep):
     from db import mir_calls, mir_callee
     r = rep.rule("R3b", "K9", "TBZ/TBNZ test the bit the instruction names: the 6-bit bit number from the decoder reaches `1 << bit` "
                  "without being masked below 6 bits or narrowed")
-    fn = "translator::aarch64::semantics::cbz_cbnz_tbz_tbnz"
-    body = db.mir.get(fn)
-    rep.anchor(body is not None, fn)
-    tm = terms_of(db, fn, {})
+    # the function that builds the single-bit mask `1 << bit` as an IL constant is found by that construction, not by name
     shl = []
-    for i, t in mir_calls(body):
-        if (mir_callee(t) or "") == "il::expr_const":
-            v = tm.operand(t["args"][0])
-            for x in tsub(v):
-                if isinstance(x, tuple) and len(x) == 4 and x[0] == "bin" and x[1] in ("Shl", "ShlUnchecked") and x[2] == ("const", 1):
-                    shl.append((t, x[3]))
-    rep.anchor(len(shl) == 1, "the `1 << bit` constant of cbz_cbnz_tbz_tbnz")
+    body = tm = None
+    for fn in sorted(k for k in db.mir.keys() if k.startswith("translator::aarch64::semantics::") and "::tests" not in k):
+        fb = db.mir[fn]
+        if not any((mir_callee(t) or "") == "il::expr_const" for i, t in mir_calls(fb)):
+            continue
+        ftm = terms_of(db, fn, {})
+        for i, t in mir_calls(fb):
+            if (mir_callee(t) or "") == "il::expr_const":
+                v = ftm.operand(t["args"][0])
+                for x in tsub(v):
+                    if isinstance(x, tuple) and len(x) == 4 and x[0] == "bin" and x[1] in ("Shl", "ShlUnchecked") and x[2] == ("const", 1):
+                        shl.append((t, x[3]))
+                        body, tm = fb, ftm
+    rep.anchor(len(shl) == 1, "the one `1 << bit` IL constant of the AArch64 test-bit-and-branch lifting (found %d)" % len(shl))
     t, amt = shl[0]
     bad = None
     for x in tsub(amt):
